@@ -9,7 +9,8 @@ from scipy import sparse
 class FactorGraph():
     def __init__(self, domain, cliques, total = 1.0, convex = False, iters=25):
         self.domain = domain
-        self.cliques = list(dict.fromkeys(cliques))
+        seen = set()
+        self.cliques = [cl for cl in cliques if not (frozenset(cl) in seen or seen.add(frozenset(cl)))]
         self.total = total
         self.convex = convex
         self.iters = iters
